@@ -11,12 +11,13 @@ package main
 // sections: by evaluating the req.base condition on sample requests with HAProxy's ACL syntax
 // `<fetch> -m <method> <pattern>...`).
 //
-// Case line:  C18 <glob> <ing>[,<ing>...] => <path>|<path>...||<binds>   (or `alloc ...`, see c18Alloc)
+// Case line:  C18 <glob> <ing>[,<ing>...] => <path>|<path>...||<binds>   (or `alloc ...`, see c18Alloc;
+//             or `hist ...`: a full sync followed by partial syncs, see c18hist.go)
 //   <glob>   x<0|1>l<0|1>[c<0|1>]r<rng>    ConverterOptions.IsExternal, global `external-has-lua`,
 //            global `cross-namespace-services: allow` (absent = deny), global `auth-proxy` range: 0,1,2,3 ports starting at 14415; `i` unparsable; `d` key absent
 //   <ing>    <host>.<path>.<svc>.<match>.<url>.<plc>.<oauth>.<signin>   one Ingress (name ing01.. in list order)
 //            with one rule/path: host h<host>.local, path (0 /a, 1 /b, 2 /c, 9 /oauth2),
-//            service (0 echo0, 1 echo1, 2 oauth2proxy), match b|p|e (ImplementationSpecific/Prefix/Exact)
+//            service (0 echo0, 1 echo1, 2 oauth2proxy, 3 echo3), match b|p|e (ImplementationSpecific/Prefix/Exact)
 //            url: key of c18URLs (`-` absent), plc: - b f t B F, oauth: - o d m u e, signin: - s (auth-signin /login)
 //   <path>   B=<rec>;F=<rec|nil>;RB=<rules>;R0=<rules>;R1=<rules>
 //            <rec> = <D|->,<name>,<authpath>,<allowedpath>,<R|->   (AlwaysDeny, AuthBackendName, AuthPath,
@@ -62,6 +63,15 @@ func init() {
 	replayers["C18"] = func(c *ctx, a []string) {
 		if len(a) >= 1 && a[0] == "alloc" {
 			c18AllocReplay(c, a[1:])
+			return
+		}
+		if len(a) >= 1 && a[0] == "hist" {
+			h, err := c18HistParse(a[1:])
+			if err != nil {
+				fmt.Fprintln(os.Stderr, "C18 replay:", err)
+				return
+			}
+			c18HistCase(c, h)
 			return
 		}
 		sc, err := c18Parse(a)
@@ -124,7 +134,7 @@ var c18Targets = map[string]string{
 var c18Plc = map[string]string{"b": "backend", "f": "frontend", "t": "fronted", "B": "Backend", "F": "FRONTEND"}
 var c18OAuth = map[string]string{"o": "oauth2_proxy", "d": "oauth2-proxy", "m": "oauth2_proxy", "u": "other_impl", "e": ""}
 var c18Paths = map[int]string{0: "/a", 1: "/b", 2: "/c", 9: "/oauth2"}
-var c18Svcs = map[int]string{0: "echo0", 1: "echo1", 2: "oauth2proxy"}
+var c18Svcs = map[int]string{0: "echo0", 1: "echo1", 2: "oauth2proxy", 3: "echo3"}
 
 func (s *c18Scenario) args() string {
 	b := func(v bool) string {
@@ -268,23 +278,36 @@ var c18Debug = os.Getenv("C18_DEBUG") != ""
 // C18_SAMPLE=n: debugging aid, sample order-sensitive scenarios until n quiet runs and print the histogram
 var c18Sample, _ = strconv.Atoi(os.Getenv("C18_SAMPLE"))
 
-// c18Run returns the implementation output of one scenario.  With pad, three extra ingresses
-// (own host, own service, no authentication) are registered after every ingress of the scenario:
-// they only spread the scenario's hosts and backends over the Go maps the converter iterates,
-// so that every iteration order shows up with a fair probability (see c18Exec).
-func c18Run(sc *c18Scenario, pad bool) (string, error) {
-	logger := &c18Logger{}
-	trk := tracker.NewTracker()
-	cache := conv_helper.NewCacheMock(trk)
+// c18Env: one controller under test — mock cache, real tracker, real haproxy.Instance writing into a
+// scratch directory, and the converter options of the scenario's globals.
+type c18Env struct {
+	logger   *c18Logger
+	trk      convtypes.Tracker
+	cache    *conv_helper.CacheMock
+	tmp      string
+	instance haproxy.Instance
+	hconfig  haproxy.Config
+	opts     *convtypes.ConverterOptions
+	global   map[string]string
+	parsed   bool
+}
+
+func (e *c18Env) close() { os.RemoveAll(e.tmp) }
+
+// c18NewEnv: pads = number of padding services (see c18Run)
+func c18NewEnv(sc *c18Scenario, pads int) (*c18Env, error) {
+	e := &c18Env{logger: &c18Logger{}}
+	e.trk = tracker.NewTracker()
+	e.cache = conv_helper.NewCacheMock(e.trk)
 	tmp, err := os.MkdirTemp("", "c18cfg")
 	if err != nil {
-		return "", err
+		return nil, err
 	}
-	defer os.RemoveAll(tmp)
+	e.tmp = tmp
 	for _, d := range []string{"etc", "etc/lua", "etc/errorfiles", "maps", "var"} {
 		os.MkdirAll(filepath.Join(tmp, d), 0o755)
 	}
-	instance := haproxy.CreateInstance(logger, haproxy.InstanceOptions{
+	e.instance = haproxy.CreateInstance(e.logger, haproxy.InstanceOptions{
 		RootFSPrefix:    "/repo/rootfs",
 		LocalFSPrefix:   tmp,
 		HAProxyCfgDir:   filepath.Join(tmp, "etc"),
@@ -296,136 +319,137 @@ func c18Run(sc *c18Scenario, pad bool) (string, error) {
 		ReloadQueue:     c18Queue{},
 		SortEndpointsBy: "endpoint",
 	})
-	hconfig := instance.Config()
-	global := map[string]string{}
+	e.hconfig = e.instance.Config()
+	e.global = map[string]string{}
 	if sc.lua {
-		global["external-has-lua"] = "true"
+		e.global["external-has-lua"] = "true"
 	}
 	if sc.xns {
-		global["cross-namespace-services"] = "allow"
+		e.global["cross-namespace-services"] = "allow"
 	}
 	switch sc.rng {
 	case "d":
 	case "i":
-		global["auth-proxy"] = "no range here"
+		e.global["auth-proxy"] = "no range here"
 	default:
 		n, err := strconv.Atoi(sc.rng)
 		if err != nil {
-			return "", fmt.Errorf("bad range %q", sc.rng)
+			e.close()
+			return nil, fmt.Errorf("bad range %q", sc.rng)
 		}
-		global["auth-proxy"] = fmt.Sprintf("_front__auth:%d-%d", c18PortBase, c18PortBase+n-1)
+		e.global["auth-proxy"] = fmt.Sprintf("_front__auth:%d-%d", c18PortBase, c18PortBase+n-1)
 	}
-	opts := &convtypes.ConverterOptions{
-		Cache:            cache,
-		Logger:           logger,
-		Tracker:          trk,
+	e.opts = &convtypes.ConverterOptions{
+		Cache:            e.cache,
+		Logger:           e.logger,
+		Tracker:          e.trk,
 		DynamicConfig:    &convtypes.DynamicConfig{CrossNamespaceServices: true},
 		AnnotationPrefix: []string{c18Prefix},
 		IsExternal:       sc.ext,
 		FakeCrtFile:      convtypes.CrtFile{Filename: "/tls/fake.pem", SHA1Hash: "1"},
 	}
-	svcNames := []string{"default/echo0", "default/echo1", "default/oauth2proxy", "default/authsvc", "other/authsvc2"}
-	if pad {
-		for i := 0; i < 3*len(sc.ings); i++ {
-			svcNames = append(svcNames, fmt.Sprintf("default/pad%02d", i))
-		}
+	svcNames := []string{"default/echo0", "default/echo1", "default/oauth2proxy", "default/echo3", "default/authsvc", "other/authsvc2"}
+	for i := 0; i < pads; i++ {
+		svcNames = append(svcNames, fmt.Sprintf("default/pad%02d", i))
 	}
 	for _, n := range svcNames {
 		p := strings.Split(n, "/")
 		svc, ep := c18Service(p[0], p[1])
-		cache.SvcList = append(cache.SvcList, svc)
-		cache.EpList[n] = ep
+		e.cache.SvcList = append(e.cache.SvcList, svc)
+		e.cache.EpList[n] = ep
 	}
-	cache.ConfigMapList = map[string]*api.ConfigMap{}
-	for i, g := range sc.ings {
-		ann := map[string]string{}
-		if g.url != "-" {
-			ann[c18Prefix+"/auth-url"] = c18URLs[g.url]
-		}
-		if g.plc != "-" {
-			ann[c18Prefix+"/auth-external-placement"] = c18Plc[g.plc]
-		}
-		if g.signin {
-			ann[c18Prefix+"/auth-signin"] = "/login"
-		}
-		if g.oauth != "-" {
-			ann[c18Prefix+"/oauth"] = c18OAuth[g.oauth]
-			if g.oauth == "m" {
-				ann[c18Prefix+"/oauth-uri-prefix"] = "/nope"
-			}
-		}
-		pt := networking.PathTypeImplementationSpecific
-		switch g.match {
-		case 'p':
-			pt = networking.PathTypePrefix
-		case 'e':
-			pt = networking.PathTypeExact
-		}
-		if pad {
-			for k := 0; k < 3; k++ {
-				n := 3*i + k
-				cache.IngList = append(cache.IngList, &networking.Ingress{
-					ObjectMeta: metav1.ObjectMeta{Namespace: "default", Name: fmt.Sprintf("ing%02dpad%d", i+1, k)},
-					Spec: networking.IngressSpec{
-						Rules: []networking.IngressRule{{
-							Host: fmt.Sprintf("pad%02d.local", n),
-							IngressRuleValue: networking.IngressRuleValue{HTTP: &networking.HTTPIngressRuleValue{
-								Paths: []networking.HTTPIngressPath{{
-									Path:     "/pad",
-									PathType: &pt,
-									Backend: networking.IngressBackend{Service: &networking.IngressServiceBackend{
-										Name: fmt.Sprintf("pad%02d", n), Port: networking.ServiceBackendPort{Number: 8080},
-									}},
-								}},
-							}},
-						}},
-					},
-				})
-			}
-		}
-		cache.IngList = append(cache.IngList, &networking.Ingress{
-			ObjectMeta: metav1.ObjectMeta{Namespace: "default", Name: fmt.Sprintf("ing%02d", i+1), Annotations: ann},
-			Spec: networking.IngressSpec{
-				Rules: []networking.IngressRule{{
-					Host: c18Host(g.host),
-					IngressRuleValue: networking.IngressRuleValue{HTTP: &networking.HTTPIngressRuleValue{
-						Paths: []networking.HTTPIngressPath{{
-							Path:     c18Paths[g.path],
-							PathType: &pt,
-							Backend: networking.IngressBackend{Service: &networking.IngressServiceBackend{
-								Name: c18Svcs[g.svc], Port: networking.ServiceBackendPort{Number: 8080},
-							}},
+	e.cache.ConfigMapList = map[string]*api.ConfigMap{}
+	return e, nil
+}
+
+func c18PathType(match byte) networking.PathType {
+	switch match {
+	case 'p':
+		return networking.PathTypePrefix
+	case 'e':
+		return networking.PathTypeExact
+	}
+	return networking.PathTypeImplementationSpecific
+}
+
+func c18MkIngress(name, host, path, svc string, pt networking.PathType, ann map[string]string) *networking.Ingress {
+	return &networking.Ingress{
+		ObjectMeta: metav1.ObjectMeta{Namespace: "default", Name: name, Annotations: ann},
+		Spec: networking.IngressSpec{
+			Rules: []networking.IngressRule{{
+				Host: host,
+				IngressRuleValue: networking.IngressRuleValue{HTTP: &networking.HTTPIngressRuleValue{
+					Paths: []networking.HTTPIngressPath{{
+						Path:     path,
+						PathType: &pt,
+						Backend: networking.IngressBackend{Service: &networking.IngressServiceBackend{
+							Name: svc, Port: networking.ServiceBackendPort{Number: 8080},
 						}},
 					}},
 				}},
-			},
-		})
+			}},
+		},
 	}
-	changed := &convtypes.ChangedObjects{GlobalConfigMapDataNew: global}
-	ingress.NewIngressConverter(opts, hconfig, changed).Sync(true)
-	if c18Debug {
-		for _, l := range logger.lines {
-			fmt.Fprintln(os.Stderr, "  log:", l)
+}
+
+// c18Ingress: the Ingress object of one grammar token
+func c18Ingress(name string, g c18Ing) *networking.Ingress {
+	ann := map[string]string{}
+	if g.url != "-" {
+		ann[c18Prefix+"/auth-url"] = c18URLs[g.url]
+	}
+	if g.plc != "-" {
+		ann[c18Prefix+"/auth-external-placement"] = c18Plc[g.plc]
+	}
+	if g.signin {
+		ann[c18Prefix+"/auth-signin"] = "/login"
+	}
+	if g.oauth != "-" {
+		ann[c18Prefix+"/oauth"] = c18OAuth[g.oauth]
+		if g.oauth == "m" {
+			ann[c18Prefix+"/oauth-uri-prefix"] = "/nope"
 		}
 	}
+	return c18MkIngress(name, c18Host(g.host), c18Paths[g.path], c18Svcs[g.svc], c18PathType(g.match), ann)
+}
 
-	// ---- binds
-	proxy := &hconfig.Frontend().AuthProxy
+func (e *c18Env) debugLog() {
+	if c18Debug {
+		for _, l := range e.logger.lines {
+			fmt.Fprintln(os.Stderr, "  log:", l)
+		}
+		e.logger.lines = nil
+	}
+}
+
+// binds: Frontend.AuthProxy.BindList in the canonical form
+func (e *c18Env) binds() string {
+	proxy := &e.hconfig.Frontend().AuthProxy
 	var binds []string
 	for _, b := range proxy.BindList {
-		binds = append(binds, c18Name(b.AuthBackendName)+">"+c18Target(hconfig, b.Backend))
+		binds = append(binds, c18Name(b.AuthBackendName)+">"+c18Target(e.hconfig, b.Backend))
 	}
+	if len(binds) == 0 {
+		return "-"
+	}
+	return strings.Join(binds, ",")
+}
 
-	// ---- render
-	if err := instance.ParseTemplates(); err != nil {
-		return "", err
+// render: what a reconciliation does after the converters ran — instance.HAProxyUpdate (sync, shrink,
+// write, commit) — and the sections of the configuration file on disk
+func (e *c18Env) render() (map[string][]string, error) {
+	if !e.parsed {
+		if err := e.instance.ParseTemplates(); err != nil {
+			return nil, err
+		}
+		e.parsed = true
 	}
-	if err := instance.HAProxyUpdate(utils.NewTimer(nil)); err != nil {
-		return "", err
+	if err := e.instance.HAProxyUpdate(utils.NewTimer(nil)); err != nil {
+		return nil, err
 	}
-	data, err := os.ReadFile(filepath.Join(tmp, "etc", "haproxy.cfg"))
+	data, err := os.ReadFile(filepath.Join(e.tmp, "etc", "haproxy.cfg"))
 	if err != nil {
-		return "", err
+		return nil, err
 	}
 	sections := c18Sections(string(data))
 	if c18Debug {
@@ -437,34 +461,38 @@ func c18Run(sc *c18Scenario, pad bool) (string, error) {
 			}
 		}
 	}
+	return sections, nil
+}
 
-	// ---- per path
+// observe: the per path records of the given ingresses, from the model objects and the rendered sections
+func (e *c18Env) observe(sections map[string][]string, ings []c18Ing) ([]string, error) {
+	hconfig := e.hconfig
 	var out []string
-	for _, g := range sc.ings {
+	for _, g := range ings {
 		hostname, path := c18Host(g.host), c18Paths[g.path]
 		host := hconfig.Hosts().FindHost(hostname)
 		if host == nil {
-			return "", fmt.Errorf("host %s missing", hostname)
+			return nil, fmt.Errorf("host %s missing", hostname)
 		}
 		var hp *hatypes.HostPath
 		for _, p := range host.Paths {
 			if p.Path() == path {
 				if hp != nil {
-					return "", fmt.Errorf("duplicated host path %s%s", hostname, path)
+					return nil, fmt.Errorf("duplicated host path %s%s", hostname, path)
 				}
 				hp = p
 			}
 		}
 		if hp == nil {
-			return "", fmt.Errorf("host path %s%s missing", hostname, path)
+			return nil, fmt.Errorf("host path %s%s missing", hostname, path)
 		}
 		backend := hconfig.Backends().FindBackend(hp.Backend.Namespace, hp.Backend.Name, hp.Backend.Port)
 		if backend == nil {
-			return "", fmt.Errorf("backend %s missing", hp.Backend.ID)
+			return nil, fmt.Errorf("backend %s missing", hp.Backend.ID)
 		}
 		bp := backend.FindBackendPath(hp.Link)
 		if bp == nil {
-			return "", fmt.Errorf("backend path of %s%s missing", hostname, path)
+			return nil, fmt.Errorf("backend path of %s%s missing", hostname, path)
 		}
 		frec := "nil"
 		if hp.AuthExt != nil {
@@ -473,7 +501,7 @@ func c18Run(sc *c18Scenario, pad bool) (string, error) {
 		// rendered rules
 		bsec, ok := sections["backend "+backend.ID]
 		if !ok {
-			return "", fmt.Errorf("section of backend %s missing", backend.ID)
+			return nil, fmt.Errorf("section of backend %s missing", backend.ID)
 		}
 		rb, err := c18Resolve(bsec, func(cd c18Cond) (bool, error) {
 			if cd.fetch == "var(txn.pathID)" && cd.method == "str" {
@@ -482,7 +510,7 @@ func c18Run(sc *c18Scenario, pad bool) (string, error) {
 			return false, fmt.Errorf("unexpected guard %q in backend section", cd.raw)
 		})
 		if err != nil {
-			return "", err
+			return nil, err
 		}
 		var rf [2]string
 		samples := [2]string{hostname + "#" + path, hostname + "#" + path + "/sub"}
@@ -507,27 +535,62 @@ func c18Run(sc *c18Scenario, pad bool) (string, error) {
 					return false, fmt.Errorf("unexpected guard %q in %s", cd.raw, name)
 				})
 				if err != nil {
-					return "", err
+					return nil, err
 				}
 				per = append(per, r)
 			}
 			// both the plain and the TLS frontend carry the rules: they must agree
 			for _, r := range per {
 				if r != per[0] {
-					return "", fmt.Errorf("frontends disagree on %s: %v", base, per)
+					return nil, fmt.Errorf("frontends disagree on %s: %v", base, per)
 				}
 			}
 			if len(per) == 0 {
-				return "", fmt.Errorf("no http frontend rendered")
+				return nil, fmt.Errorf("no http frontend rendered")
 			}
 			all = append(all, per[0])
 			rf[k] = strings.Join(all, "+")
 		}
 		out = append(out, fmt.Sprintf("B=%s;F=%s;RB=%s;R0=%s;R1=%s", c18Rec(&bp.AuthExternal), frec, rb, rf[0], rf[1]))
 	}
-	bs := "-"
-	if len(binds) > 0 {
-		bs = strings.Join(binds, ",")
+	return out, nil
+}
+
+// c18Run returns the implementation output of one scenario.  With pad, three extra ingresses
+// (own host, own service, no authentication) are registered after every ingress of the scenario:
+// they only spread the scenario's hosts and backends over the Go maps the converter iterates,
+// so that every iteration order shows up with a fair probability (see c18Exec).
+func c18Run(sc *c18Scenario, pad bool) (string, error) {
+	pads := 0
+	if pad {
+		pads = 3 * len(sc.ings)
+	}
+	e, err := c18NewEnv(sc, pads)
+	if err != nil {
+		return "", err
+	}
+	defer e.close()
+	for i, g := range sc.ings {
+		if pad {
+			for k := 0; k < 3; k++ {
+				n := 3*i + k
+				e.cache.IngList = append(e.cache.IngList, c18MkIngress(fmt.Sprintf("ing%02dpad%d", i+1, k),
+					fmt.Sprintf("pad%02d.local", n), "/pad", fmt.Sprintf("pad%02d", n), c18PathType(g.match), nil))
+			}
+		}
+		e.cache.IngList = append(e.cache.IngList, c18Ingress(fmt.Sprintf("ing%02d", i+1), g))
+	}
+	changed := &convtypes.ChangedObjects{GlobalConfigMapDataNew: e.global}
+	ingress.NewIngressConverter(e.opts, e.hconfig, changed).Sync(true)
+	e.debugLog()
+	bs := e.binds()
+	sections, err := e.render()
+	if err != nil {
+		return "", err
+	}
+	out, err := e.observe(sections, sc.ings)
+	if err != nil {
+		return "", err
 	}
 	return strings.Join(out, "|") + "||" + bs, nil
 }
@@ -1308,4 +1371,7 @@ func runC18(c *ctx) {
 		scs = append(scs, c18Random(r))
 	}
 	c18Batch(c, scs)
+
+	// ---- histories: full sync + commit, then partial syncs (c18hist.go)
+	runC18Hist(c)
 }
